@@ -108,6 +108,10 @@ impl Engine for MachineEngine {
                         "wb" => ReadStep::WouldBlock,
                         "eof" => ReadStep::Eof,
                         "err" => ReadStep::Err,
+                        k if k.starts_with("err:") => match err_kind(&k[4..]) {
+                            Some(kind) => ReadStep::ErrKind(kind),
+                            None => return out.push("bad-op".into()),
+                        },
                         _ => match e.strip_prefix("c:").and_then(unhex) {
                             Some(b) => ReadStep::Chunk(b),
                             None => return out.push("bad-op".into()),
@@ -122,6 +126,10 @@ impl Engine for MachineEngine {
                     let st = match *w {
                         "wb" => WriteStep::WouldBlock,
                         "err" => WriteStep::Err,
+                        k if k.starts_with("err:") => match err_kind(&k[4..]) {
+                            Some(kind) => WriteStep::ErrKind(kind),
+                            None => return out.push("bad-op".into()),
+                        },
                         _ => match w.strip_prefix("w:").and_then(|n| n.parse::<usize>().ok()) {
                             Some(n) => WriteStep::Accept(n),
                             None => return out.push("bad-op".into()),
@@ -378,4 +386,23 @@ impl Engine for MachineEngine {
             _ => out.push("bad-op".into()),
         }
     }
+}
+
+/// The I/O error kinds a scripted transport step can fail with (`err:<kind>`).
+fn err_kind(s: &str) -> Option<std::io::ErrorKind> {
+    use std::io::ErrorKind::*;
+    Some(match s {
+        "reset" => ConnectionReset,
+        "aborted" => ConnectionAborted,
+        "refused" => ConnectionRefused,
+        "notconnected" => NotConnected,
+        "brokenpipe" => BrokenPipe,
+        "timedout" => TimedOut,
+        "interrupted" => Interrupted,
+        "unexpectedeof" => UnexpectedEof,
+        "invaliddata" => InvalidData,
+        "permission" => PermissionDenied,
+        "other" => Other,
+        _ => return None,
+    })
 }
